@@ -55,7 +55,8 @@ def languages(delim):
     seg_char = cls(SAFE) if delim != "/" else cls(safe)          # identifier segments may contain the delimiter (':')
     seg = z3.Intersect(z3.Plus(seg_char), z3.Complement(z3.Union(z3.Re("."), z3.Re(".."))))
     ident = z3.Concat(seg, z3.Star(z3.Concat(z3.Re("/"), seg)))
-    pref = z3.Plus(cls(safe))
+    # a prefix that is a dot-segment ('.' or '..') is normalised away by HTTP clients, like identifier segments
+    pref = z3.Intersect(z3.Plus(cls(safe)), z3.Complement(z3.Union(z3.Re("."), z3.Re(".."))))
     return pref, ident, z3.Star(cls(SAFE + "/"))
 
 
